@@ -76,6 +76,9 @@ def main():
     tmp = tempfile.mkdtemp(prefix='vmon-%s-' % pid)
     procs = []
     try:
+        if hasattr(mod, 'prepare'):
+            # oracle values that must come from pristine processes (see C10)
+            env['VMON_PREP'] = mod.prepare(tmp, env, PY, HERE)
         for s in range(nsh):
             out = os.path.join(tmp, 'w%d.json' % s)
             p = subprocess.Popen([PY, '-B', '-m', 'vmon.shard', pid, a.tier, str(a.seed), str(s), str(nsh), '0', '1', out],
